@@ -2,7 +2,7 @@ _FN = r"(validateContractFormation|rhp2\.validateContractRenewal|rhp3\.validateC
 PROP = dict(
         engine="revision", harness="revision", driver="drv_revision",
         # after the proposed repair (overflow-checked base cost arithmetic) is applied: driver_args=["fixed"] (or run with VERIF_REVISION_VARIANT=fixed)
-        driver_args=(['fixed'] if __import__('os').environ.get('VERIF_REVISION_VARIANT') == 'fixed' else []),
+        driver_args=([] if __import__('os').environ.get('VERIF_REVISION_VARIANT') == 'unfixed' else ['fixed']),   # /repo carries the fix: commits 44e5446..839f27b
         props=["Hostd.Props.C12"],
         case_mode=True,
         flag_filter=r"(^|/)" + _FN + r"/(?!clearing_)",
